@@ -83,6 +83,8 @@ func enumEditUnit(unit string, f func(text string)) {
 	}
 }
 
+var editAlphabet = append(append([]string{}, enum.SigmaFull...), "\"\xff\"", "\"a\x00\"")
+
 func editRec(toks []string, k int, f func(text string)) {
 	f(strings.Join(toks, " "))
 	if k == 0 {
@@ -95,9 +97,9 @@ func editRec(toks []string, k int, f func(text string)) {
 		buf = append(append(buf[:0], toks[:i]...), toks[i+1:]...)
 		editRec(append([]string{}, buf...), k-1, f)
 	}
-	// replace
+	// replace (the edit alphabet adds two hostile phrases to Σ_full: invalid UTF-8 and NUL inside quotes)
 	for i := 0; i < n; i++ {
-		for _, s := range enum.SigmaFull {
+		for _, s := range editAlphabet {
 			if s == toks[i] {
 				continue
 			}
@@ -108,7 +110,7 @@ func editRec(toks []string, k int, f func(text string)) {
 	}
 	// insert
 	for i := 0; i <= n; i++ {
-		for _, s := range enum.SigmaFull {
+		for _, s := range editAlphabet {
 			t := make([]string, 0, n+1)
 			t = append(t, toks[:i]...)
 			t = append(t, s)
